@@ -6,7 +6,7 @@ HERE = os.path.dirname(os.path.dirname(os.path.abspath(__file__)))
 TECH = "contract-based deductive verification (Verus) of mechanically extracted real functions"
 CLAIMED = {
  "C01": dict(cat="proof", ref="5 C01", tech=TECH,
-   text="Verus discharges, for all wires of non-empty NUL-terminated frames and all chunkings (the transport read returns any n <= buf.len()), that each receive returns decode(next frame) and advances exactly past its terminator; loops by invariants, production constants, no bound",
+   text="Verus discharges, for all wires of non-empty NUL-terminated frames and all chunkings (the transport read returns any n <= buf.len()), that each receive (receive_call, receive_reply, read_message::<M>) returns decode(next frame) and advances exactly past its terminator; loops by invariants, production constants, no bound",
    note="assumed: transport read contract, serde_json::from_slice = deterministic function of exactly the bytes given, vstd specs of Vec/slice, two std leaf helpers; induction over successive calls on paper"),
  "C02": dict(cat="proof", ref="5 C02", tech=TECH,
    text="every enqueue/send/flush of WriteConnection is proved against the history variable stream() = concat(write log) + pending: accepted message => stream grows by exactly enc(value)+NUL, refused => unchanged; flush = one write of everything pending, none when empty",
@@ -27,11 +27,11 @@ CLAIMED = {
    text="BOUNDED (n <= 5 futures, quick n <= 3): for every start index (all 2^64+1 Option<usize> values) and every readiness vector the real SelectAll::poll polls in rotation order s, s+1, ... each at most once, returns the first ready one, Pending iff none; and with the server's 'start at winner+1' glue the same connection does not win twice while another is ready",
    note="bounded in n, labelled bounded, never counted as proved; Verus cannot ingest impl Future for SelectAll; Server::run glue replicated in the harness; swap_remove reordering across closures not covered"),
  "C19": dict(cat="proof", ref="5 C19", tech=TECH + "; cancel-point assertion for the abandoned-send clause",
-   text="the two transport adapters of zlink-tokio and zlink-smol: ReadHalf::read is a pass-through of the runtime read; WriteHalf::write hands the runtime exactly buf, in order, nothing else (loop invariant sent = buf[..pos], termination given n >= 1), a prefix on error. The abandoned-send clause is a cancel-point obligation in the write loop; it FAILS in both crates and is reported as two KNOWN-FINDINGs (reproduced on real sockets by replay_rt)",
-   note="assumed: kernel FIFO and runtime write/read contracts (trusted leaves); composition with C01/C02 on paper; listener from inherited fd, connection ids, bidirectional concurrency not decided"),
+   text="the two transport adapters of zlink-tokio and zlink-smol: ReadHalf::read is a pass-through of the runtime read; WriteHalf::write hands the runtime exactly buf, in order, nothing else (loop invariant sent = buf[..pos], termination given n >= 1), a prefix on error. Listeners built from an inherited descriptor register a non-blocking descriptor (both crates). The abandoned-send clause is a cancel-point obligation in the write loop; it FAILS in both crates and is reported as two KNOWN-FINDINGs (reproduced on real sockets by replay_rt)",
+   note="assumed: kernel FIFO and runtime write/read contracts (trusted leaves); composition with C01/C02 on paper; async-io / tokio constructor preconditions assumed from their docs; bind, connection ids, bidirectional concurrency not decided"),
  "C13": dict(cat="proof", ref="5 C13", tech=TECH,
-   text="token level only: for ALL byte strings the hand-written scanners ws, whitespace_only, bytes_to_str, field_name, type_name, interface_name and the look-ahead of inline_type never index out of bounds, never unwrap an Err, terminate (decreases on every loop), consume exactly the returned token (token + rest = input; untouched on Err), and the token is maximal and in its Varlink class (type name [A-Z][A-Za-z0-9]*; interface name position-wise equivalent of the grammar production; field name [A-Za-z][A-Za-z0-9_]*)",
-   note="NOT decided: the grammar level (everything built from winnow combinators): member structure, source order, 'never ignores part of the text'; comment_def; underscore placement in field names; leaf contracts for multispace0 / from_utf8 / position / contains assumed"),
+   text="hand-written part of the parser, for ALL byte strings: the scanners ws (skips exactly the grammar's `_` production), whitespace_only, bytes_to_str, field_name, type_name, interface_name and the look-ahead of inline_type never index out of bounds, never unwrap an Err, terminate, consume exactly the returned token, fail only when no legal token starts the input, and the token is maximal and in its Varlink class; the field loops of type_def and parameter_list terminate and drop no parsed name; method_def / error_def only consume; parse_from_str accepts only when nothing but whitespace/comments remains",
+   note="NOT decided: everything built from winnow combinators (alt, separated): the type grammar, interface_def's member loop, comment_def, source order; winnow leaves (multispace0, literal, take_while), from_utf8, position/contains and the IDL node constructors are assumed stubs; underscore placement in field names is a known finding"),
  "C17": dict(cat="proof", ref="5 C17", tech=TECH,
    text="inbound and outbound buffer length <= MAX_BUFFER_SIZE on every exit; BufferOverflow only when the undelivered / pending bytes reach the limit; refused outbound message leaves pending bytes and log unchanged; proved for the production constants",
    note="assumed: vstd Vec specs, to_slice contract; serde_json heap use and Vec capacity not covered"),
